@@ -77,13 +77,14 @@ def unit_effect_keys(u):
     return keys_path, keys_method
 
 
-def build_extractor_config(flavour, cfg, files, units, bare=()):
+def build_extractor_config(flavour, cfg, files, units, bare=(), demoted=()):
     fl = FLAVOURS[flavour]
     eff_path = dict(cfg['effects_path'])
     eff_method = dict(cfg['effects_method'])
     derived = set()
     active = [u for u in units if (u['flavours'] is None or flavour in u['flavours'])
-              and (not files.get(u['file'], {}).get('flavours') or flavour in files[u['file']]['flavours'])]
+              and (not files.get(u['file'], {}).get('flavours') or flavour in files[u['file']]['flavours'])
+              and not any(u['id'] == d or u['id'].startswith(d + '::') for d in demoted)]
     for u in active:
         if u['world'] == 'none':
             continue
@@ -106,7 +107,8 @@ def build_extractor_config(flavour, cfg, files, units, bare=()):
         if f.get('flavours') and flavour not in f['flavours']:
             continue
         fcfg[fname] = {'keep_items': sorted(set(f['keep'])), 'units': [], 'drop_uses': f['drop_use'],
-                       'item_extra': f['item_extra'], 'lifts': f.get('lifts', [])}
+                       'item_extra': f['item_extra'], 'lifts': f.get('lifts', []),
+                       'extra_fn_names': sorted(set(re.findall(r'\bfn\s+(\w+)', '\n'.join(f['extra']))))}
     locals_base = {}
     lp = os.path.join(VERIF, 'contracts', 'locals.json')
     if os.path.exists(lp):
@@ -305,9 +307,9 @@ def assemble(flavour, cfg, files, active_units, ext_out, auto_weak=()):
     return text, meta
 
 
-def run_extractor(flavour, cfg, files, units, bare=(), opaque=(), vacuity=False):
+def run_extractor(flavour, cfg, files, units, bare=(), opaque=(), vacuity=False, demoted=()):
     os.makedirs(BUILD, exist_ok=True)
-    ecfg, active = build_extractor_config(flavour, cfg, files, units, bare)
+    ecfg, active = build_extractor_config(flavour, cfg, files, units, bare, demoted)
     ecfg['opaque_auto'] = list(opaque)
     ecfg['vacuity_probe'] = bool(vacuity)
     tag = flavour + ('_vac' if vacuity else '')
@@ -564,34 +566,45 @@ def full_run(flavour, cfg, files, units, rlimit=40, seed=0):
     auto-included const/static/type left out, when the compiler or Verus rejects it ("opaque")"""
     bare = set()
     opaque = set()
+    demoted = set()
     annotated = {u['id'] for u in units if u['closures'] or u['loops'] or u['hints'] or u['strslice'] or u['body_open']}
-    for _ in range(10):
-        ext, active = run_extractor(flavour, cfg, files, units, bare=tuple(bare), opaque=tuple(sorted(opaque)))
+    unit_ids = {u['id'] for u in units}
+    for _ in range(12):
+        ext, active = run_extractor(flavour, cfg, files, units, bare=tuple(bare), opaque=tuple(sorted(opaque)), demoted=tuple(sorted(demoted)))
         text, meta, gen, res, weak = verify_with_auto_weak(flavour, cfg, files, active, ext, rlimit, seed)
         hid = region_of_hard_error(res, meta, os.path.basename(gen))
         if hid is not None and (hid.startswith('auto:') or hid.startswith('item:')) and hid not in opaque:
             opaque.add(hid)
             continue
         uid = unit_of_rustc_error(res, meta, os.path.basename(gen))
-        if uid is None or uid in bare:
+        if uid is None:
             break
         # the error may sit in a nested inner fn: try the unit itself, then its outer unit
         cand = [uid] + [u for u in annotated if uid.startswith(u + '::')]
         cand = [c for c in cand if c in annotated and c not in bare]
-        if not cand:
-            break
-        bare.add(cand[0])
+        if cand:
+            bare.add(cand[0])
+            continue
+        # (d) even the bare signature contract does not type-check against the function as it is
+        # now (e.g. its return type changed): the unit is DEMOTED - its contract is dropped, the
+        # function is treated like a helper without contract (rule I1 may write it out at its call
+        # sites) and what its callers' contracts need is decided there
+        if uid in unit_ids and uid not in demoted:
+            demoted.add(uid)
+            continue
+        break
+    ext['demoted_units'] = sorted(demoted)
     ext['opaque_auto'] = sorted(opaque)
     return ext, active, text, meta, gen, res, weak, sorted(bare)
 
 
-def vacuity_run(flavour, cfg, files, units, bare, opaque, weak, rlimit=40):
+def vacuity_run(flavour, cfg, files, units, bare, opaque, weak, rlimit=40, demoted=()):
     """second Verus run on the same extraction with `assert(false)` woven in as the first
     statement of every verified unit body: each of these assertions must FAIL.  One that is
     proved means the unit's precondition (with the lemmas and axioms in scope) is contradictory,
     i.e. everything about that unit would be proved vacuously.
     -> (number of probes, ids of units whose probe was PROVED)"""
-    ext, active = run_extractor(flavour, cfg, files, units, bare=tuple(bare), opaque=tuple(opaque), vacuity=True)
+    ext, active = run_extractor(flavour, cfg, files, units, bare=tuple(bare), opaque=tuple(opaque), vacuity=True, demoted=tuple(demoted))
     text, meta = assemble(flavour, cfg, files, active, ext, auto_weak=weak)
     gen = os.path.join(BUILD, f'gen_{flavour}_vac.rs')
     open(gen, 'w').write(text)
